@@ -82,7 +82,7 @@ func (c13) Gen(r *Rand, idx int, tier string) interface{} {
 	p.Async = r.Pct(70)
 	p.CancelWhat = Pick(r, []string{"own", "own", "conn"})
 	p.CancelAfter = r.Intn(12)
-	p.Consumer = Pick(r, []string{"next", "until", "until-nil"})
+	p.Consumer = Pick(r, []string{"next", "until", "until-nil", "until-err"})
 	p.SendAfter = r.Pct(50)
 	p.Logout = Pick(r, []string{"answer", "answer", "late", "never"})
 	p.LateMs = Pick(r, []int{10, 1000, 59000, 61000})
@@ -336,6 +336,8 @@ func (c13) Run(plan interface{}, schedSeed uint64, replay []simrt.Choice, lenien
 	return v, out
 }
 
+var errC13Callback = errors.New("callback rejects the package (harness marker)")
+
 func c13Count(pkg tds.Package) int32 {
 	if d, ok := pkg.(*tds.DonePackage); ok {
 		return d.Count
@@ -363,6 +365,10 @@ func c13Cancel(p *c13Plan, res *c13Res, conn *tds.Conn, ch *tds.Channel, cancelP
 				pkg, err = ch.NextPackageUntil(own, true, func(pk tds.Package) (bool, error) { return true, nil })
 			case "until-nil":
 				_, err = ch.NextPackageUntil(own, true, nil)
+			case "until-err":
+				// the callback rejects the first package; the library then drains the rest of the response, which
+				// never completes here - only the cancellation can end the call
+				_, err = ch.NextPackageUntil(own, true, func(pk tds.Package) (bool, error) { return false, errC13Callback })
 			default:
 				pkg, err = ch.NextPackage(own, true)
 			}
@@ -374,6 +380,13 @@ func c13Cancel(p *c13Plan, res *c13Res, conn *tds.Conn, ch *tds.Channel, cancelP
 					return
 				}
 				wantErr := context.Canceled
+				if p.Consumer == "until-err" && errors.Is(err, errC13Callback) {
+					// the call reports its callback's error; what matters here is that it returned promptly
+					if res.cancelSeq >= 0 && simrt.SimNow() != res.cancelNow {
+						res.violate("late-return", "cancel: return not prompt", "cancel at t=%v, receive returned at t=%v", res.cancelNow, simrt.SimNow())
+					}
+					return
+				}
 				if !errors.Is(err, wantErr) {
 					res.violate("wrong-error", "cancel: error does not wrap the context error", "receive returned %q, which does not wrap %v", err, wantErr)
 				} else if res.cancelSeq < 0 || seq < res.cancelSeq {
